@@ -3,7 +3,7 @@ from ..core import AnalysisError, term_s, subterms
 from . import srv, conn
 from .conn import leaves, ret_kind
 from .srv import S, CC, calls, state_test, eventset_value, EV_IN, EV_OUT
-from .util import const_of, is_call, last_seg, look, norm, truth
+from .util import result_outcome, const_of, is_call, last_seg, look, norm, truth
 
 EXPLANATION = (
     "Static decision of the one mechanism the server has for liveness: the epoll interest of a "
@@ -65,10 +65,13 @@ def mirror(ctx, rule, fname, which):
             w = e[3].split("::")[-1]
             target_state, interest = TRANS[w]
             recv = look(e[4][2][0])
+            if lf.kind == "loop" and e[1] in lf.trace and lf.trace.index(lf.bb) > lf.trace.index(e[1]):
+                continue   # ends at the back edge of a loop entered after the call: the rest of the iteration is on the path that leaves that loop
             # a path on which the call itself failed and the error is returned needs no re-arm
             rk = ret_kind(lf)
             failed = any(t[0] == "discr" and is_call(t[1], "branch") and norm(look(t[1][2][0])) == norm(e[4]) and c == ("eq", 1) for (t, c, _b) in lf.conds)
             failed = failed or any(t[0] == "discr" and norm(look(t[1])) == norm(e[4]) and (c == ("eq", 1) or (c[0] == "ne" and 0 in c[1])) for (t, c, _b) in lf.conds)
+            failed = failed or result_outcome(lf, e[4]) == "err"
             if failed and not sets_state_on_err(ctx, w):
                 continue
             n += 1
@@ -157,7 +160,11 @@ def respond_mirror(ctx):
         for bb, t in f.calls_to(S + "epoll_mod"):
             sites.setdefault(f.name, 0)
             sites[f.name] += 1
-    ctx.ob("R08.1", "epoll_mod|callers", set(sites) <= {srv.REQUESTS, srv.RESPOND, srv.FLUSH}, "epoll_mod is called from %s" % sites)
+    from .util import roots_of
+    roots = set()
+    for c in sites:
+        roots |= roots_of(facts, c) or {c}
+    ctx.ob("R08.1", "epoll_mod|callers", roots <= {srv.REQUESTS, srv.RESPOND, srv.FLUSH}, "epoll_mod is called from %s (on behalf of %s)" % (sites, sorted(roots)))
     # interest sets at all Modify sites
     for f in facts.fns.values():
         if not list(f.calls_to(S + "epoll_mod")):
